@@ -264,7 +264,7 @@ def run(repo, rep):
 
     # exact type of native leaves: no call wrapper
     n = 0
-    itn = S.interp(repo, 'printer', {__import__('engine.roles', fromlist=['x']).name(repo, 'builtin_repr'): lambda it_, a, k, nd: SymStr('base_repr(%s)' % prov(a[1]), nonempty=True)})
+    itn = S.interp(repo, 'printer', {__import__('engine.roles', fromlist=['x']).name(repo, 'builtin_repr'): lambda it_, a, k, nd: SymStr('base_repr(%s)' % prov(a[-1]), nonempty=True)})
     for base in ('int', 'float', 'bool'):
         fn = S.printer_for(repo, base)
         v = ValueV('value', TypeV(base), None)
